@@ -112,16 +112,10 @@ Qed.
 
 (** * Refuted readings *)
 
-(** (1) "Every generated ACK has at least one range": false at the API of the handler. A forget
-    threshold above everything received empties the history while [hasNewAck] stays set. *)
+(** (1) "Every generated ACK has at least one range" needs the caller discipline
+    (ProofsNonempty.v): the witness below is outside of it. *)
 Definition empty_ack_witness : list op :=
   [Recv 3 1 rph_Enc1RTT 1000 true; Ignore 10].
-
-Lemma ack_nonempty_refuted :
-  exists ops now f,
-    snd (h_get_ack (fst (run newHandler ops)) rph_Enc1RTT now false) = Some f /\ aRanges f = [] /\
-    validateAckRanges (aRanges f) = false.
-Proof. exists empty_ack_witness, 2000, (mkAck [] 1000 0 0 0). vm_compute. auto. Qed.
 
 (** (2) "A received number at or above the Start of the lowest tracked range is flagged": false
     once the MaxNumAckRanges limit has dropped a range and a later, lower packet opens a new
